@@ -202,6 +202,9 @@ func (root *Root) resolve(
 			return nil, []error{resError(unbound.line, unbound.col,
 				"failed to determine union member %s implementation type. Use @go directive", unbound.N)}
 		}
+		// Every member is bound to a Go type and none of them to the type of
+		// this value: it is not a value of the union.
+		return nil, []error{resWarn(field.line, field.col, "a %T is not a member of union %s", obj, tt.N)}
 	default:
 		// Validation makes sure all output types are valid so no need to
 		// check again here. The worse case is that null is returned if
